@@ -40,6 +40,13 @@ var lsWindows = []window{
 
 func pickAddr(r *engine.Rand, span int) uint16 {
 	w := lsWindows[r.Intn(len(lsWindows))]
+	if span >= 2 && r.Chance(1, 6) {
+		// a multi-byte operand that straddles a 256-byte page inside the window
+		if lo, hi := int(w.lo)|0xff, int(w.hi)-span+1; lo <= hi {
+			a := lo + 0x100*r.Intn((hi-lo)/0x100+1)
+			return uint16(a - r.Intn(span-1))
+		}
+	}
 	if r.Chance(1, 3) {
 		// near the edges of the window
 		if r.Bool() {
